@@ -36,6 +36,11 @@ def run(case):
                 res = list(c.retrieve(asg(op[1])))
                 obs.append("[" + ";".join(show_asg(a) + "=" + str(o) for a, o in res) + "]")
                 mix.append(mixed(c.cache))
+            elif op[0] == 'mg':
+                from entity_query_language.symbolic import BinaryOperator
+                res = BinaryOperator._most_general_(c.retrieve(asg(op[1])))
+                obs.append("[" + ";".join(show_asg(a) + "=" + str(o) for a, o in res) + "]")
+                mix.append(mixed(c.cache))
             elif op[0] == 'clr':
                 c.clear()
         except Exception as e:
